@@ -285,6 +285,18 @@ CLAIMED.update({
     ),
 })
 
+CLAIMED.update({
+    'C08': (
+        'proxy symbolic execution (bvx/z3) of Key import/export/address derivation and validate_mnemonic with ideal-primitive stand-ins and digit-string proxies for the bin/hex/zfill arithmetic',
+        'Bounded symbolic model checking: symbolic secrets (4 curves), salts and passphrases (bytes and printable text, 1..4 characters): public_key_hash is base58(tz1..tz4, Blake2b-160(public key)) and HASH_KEY '
+        'agrees; secret_key()/from_encoded_key round trips plain and encrypted (the passphrase reaches PBKDF2 as its bytes with the stored salt, another passphrase fails); public key export/import; '
+        'validate_mnemonic accepts a sequence of 12/15/18/21/24 symbolic word indices exactly when its checksum bits equal the first bits of (ideal) SHA-256 over the entropy bytes, other lengths are rejected; '
+        'from_mnemonic is deterministic and uses email+passphrase. Public-key derivation against an independent implementation is OUTSIDE the claim.',
+        'Plumbing only around ideal primitives (curves, PBKDF2, secretbox, SHA-256, BIP-39 seed).',
+        'DESIGN.md C08',
+    ),
+})
+
 NOT_APPLICABLE = {
     'C18': 'Parser is a PLY regex lexer + LALR tables + json; every input is concrete before the code under test runs, '
            'so a solver has nothing to decide (CrossHair regex model also unsound here). See DESIGN.md section 6.',
